@@ -1,9 +1,18 @@
 PROP = "C05"
-LEVEL = "exploration"
-CONTRACT_MODULES = ["rdp", "linear_fit"]
-DEDUCTIVE = []
-EXPLANATION = "bounded run-time layer only so far (the contracts of _rdp_fixed are not discharged yet)"
-LEVEL_TEXT = ("Bounded exploration: the whole chain k=0..n+1 on the curve families, size / nesting / greedy choice checked against the "
-              "library's own primitives. Not a proof.")
-LEVEL_NOTE = "bounded; oracle uses the library's distance and ordering primitives on explicit index ranges"
-TECHNIQUE = "bounded run-time contract checking (stand-in; deductive contracts for _rdp_fixed pending)"
+LEVEL = "proof"
+CONTRACT_MODULES = ["rdp", "linear_fit", "evaluation"]
+DEDUCTIVE = [
+    ("rdp", "kneeliverse.rdp._rdp_fixed"),
+    ("rdp", "kneeliverse.rdp.rdp_fixed#n>2"),
+    ("rdp", "kneeliverse.rdp.rdp_fixed#n=2"),
+]
+EXPLANATION = ("(N) rdp_fixed returns exactly min(max(k,2), n) indices - proved for all curves, distances, orderings and k from the loop contract "
+               "of _rdp_fixed: one fresh index per iteration, loop exits when the budget is used or the work list is empty, and the counting "
+               "identity n - |reduced| = sum over pending segments of their interior points makes 'work list empty' mean 'all points "
+               "retained'. The gained index is strictly inside a pending segment and different from every retained index (state invariant). "
+               "Nesting of consecutive results, the arg-max and the maximal-ordering-score clauses are covered by the bounded layer (whole "
+               "chain k=0..n+1 with the library's primitives).")
+LEVEL_TEXT = ("Proof of exact size, duplicate-freeness and 'the gained index lies strictly inside a retained segment' for all inputs; bounded layer "
+              "for nesting, interior arg-max up to rounding noise and the maximal ordering score.")
+LEVEL_NOTE = "mode U (distance / ordering primitives uninterpreted); list.sort, np.argmax, np.all contracts and the pigeonhole lemma assumed; clauses G (score) and H (nesting) bounded only."
+TECHNIQUE = "contract-based deductive verification (AST->VC, z3) with a counting invariant over the work list; bounded run-time layer as labelled stand-in"
